@@ -69,7 +69,8 @@ func alphabetOf(sc *Scenario) []rune {
 }
 
 var findKinds = []int{OpMatchString, OpMatchRunes, OpFindString, OpFindRunes, OpFindStringAt, OpFindRunesAt, OpFindAllString, OpFindAllRunes,
-	OpReplace, OpReplace, OpReplaceFunc, OpSplit, OpWalk2, OpCompatMatch, OpCompatSubmatchIndex, OpCompatAllSubmatch, OpCompatAllIndex, OpCompatReader, OpGroupInfo, OpReplaceAt}
+	OpReplace, OpReplace, OpReplaceFunc, OpSplit, OpWalk2, OpCompatMatch, OpCompatSubmatchIndex, OpCompatAllSubmatch, OpCompatAllIndex, OpCompatReader, OpGroupInfo, OpReplaceAt,
+	OpFindString, OpMatchString, OpFindAllString, OpReplace, OpSplit, OpFindRunes, OpMarshalRoundTrip}
 
 // randSpec draws a corpus pattern with randomised tuning knobs.
 func randSpec(r *rng, knobs bool) (ReSpec, *pat) {
